@@ -30,6 +30,12 @@ func c05SPDX(r *rand.Rand) *jsonx.Value {
 		np = 1
 	}
 	ids := gen.UniqueIDs(r, np+nf, gen.IDSpdx)
+	if r.Intn(5) == 0 {
+		// an element whose identifier proper begins like the reference marker, or like the document's own name
+		// (the full SPDXID is then "SPDXRef-SPDXRef-x"): a legal id, and one more element of the document
+		i := r.Intn(len(ids))
+		ids[i] = gen.Pick(r, []string{"SPDXRef-", "SPDXRef", "DOCUMENT-", "DocumentRef-", "SPDXRef-SPDXRef-"}) + ids[i]
+	}
 	ref := func(id string) *jsonx.Value { v := jsonx.S("SPDXRef-" + id); v.RawPos = true; return v }
 	raw := func(s string) *jsonx.Value { v := jsonx.S(s); v.RawPos = true; return v }
 	actor := func() *jsonx.Value {
